@@ -364,6 +364,24 @@ func checkC15(c *Ctx) {
 	}
 	R.Floor("C15-waitgroup", 2)
 
+	// ---- C15-guarded-object: the bufio.Writer behind ResponseWriter.writer / conn.writer is itself shared
+	// state: every method call on it must be made under the connection's writerMu (rules of C05)
+	{
+		tmp := &Ctx{P: c.P, R: report.New("tmp"), Tier: c.Tier}
+		checkC05(tmp)
+		for _, o := range tmp.R.Obls {
+			if o.Rule == "C05-owner" || o.Rule == "C05-locked" || (o.Rule == "C05-shared" && strings.Contains(o.Construct, "newResponseWriter")) {
+				switch o.Status {
+				case report.Discharged:
+					R.OK("C15-guarded-object", o.Construct, o.Pos, o.Detail)
+				default:
+					R.Fail("C15-guarded-object", o.Construct, o.Pos, o.Detail)
+				}
+			}
+		}
+		R.Floor("C15-guarded-object", 4)
+	}
+
 	// ---- C15-copylocks
 	for typ, pkg := range pkgOf {
 		nt := c.P.NamedType(pkg, typ)
